@@ -1,5 +1,6 @@
 """Development helper: run the whole variant battery for all (or given) properties and print a matrix."""
-import sys, time
+import sys, time, os
+os.environ.setdefault("TF_SKIP_MYPY", "1")
 sys.path.insert(0, "/verif")
 from tfstatic.driver import load_rules, PROPS
 from tfstatic.context import Ctx
